@@ -207,9 +207,14 @@ func kvTreeJobs(prop string, q bool, add func(kind, id string, w int, s map[stri
 		c    string
 		m, n int
 	}
+	// order 4 reaches height 4 at 22 keys: 123 k states, 17 min - once (C02), not in every re-run of these jobs
+	b4 := 18
+	if prop == "C02" {
+		b4 = 23
+	}
 	trees := []tb{
 		{"rbt", 0, pick(12, 16)}, {"avl", 0, pick(13, 17)}, {"treemap", 0, pick(10, 13)}, {"treeset", 0, pick(10, 13)},
-		{"btree", 3, pick(18, 24)}, {"btree", 4, pick(15, 23)}, {"btree", 5, pick(21, 24)}, {"btree", 6, pick(24, 28)},
+		{"btree", 3, pick(18, 24)}, {"btree", 4, pick(15, b4)}, {"btree", 5, pick(21, 24)}, {"btree", 6, pick(24, 28)},
 	}
 	if !q {
 		trees = append(trees, tb{"btree", 7, 36}, tb{"btree", 8, 20}, tb{"btree", 9, 20})
